@@ -95,6 +95,13 @@ class Scenario:
             out["inconclusive"] = "path became infeasible on replay"
             return out
         except Inconclusive as e:
+            if getattr(self, "step_bound_is_violation", False) and "step bound" in str(e) and path.check(heavy=True) == z3.sat:
+                # C09: a single call that does not finish within the step budget on a satisfiable path = unbounded work
+                c = dict(name="bounded work per call", status="violated", time=0.0, detail=str(e))
+                self._attach_cex(I, c, path, getattr(I, "last_state", None))
+                out["claims"].append(c)
+                out["queries"], out["solver_time"] = path.queries, path.solver_time
+                return out
             out["inconclusive"] = str(e)
             return out
         if len(path.decisions) != len(decisions) or path.new_alternatives:
